@@ -218,10 +218,42 @@ let run_vmbody opt sec role sess ops =
   let rk = resp_key prims s and ri = resp_iv prims s in
   let (ek, ei, dk, di) = if role = "client" then (s.vs_key, s.vs_iv, rk, ri) else (rk, ri, s.vs_key, s.vs_iv) in
   let enc = ref (body_new prims opt sec ek ei s.vs_key s.vs_iv) and dec = ref (body_new prims opt sec dk di s.vs_key s.vs_iv) in
+  (* the peer's encoder of the opposite direction (ops L / M): same key and iv as this role's decoder *)
+  let peer = ref (body_new prims opt sec dk di s.vs_key s.vs_iv) in
   let buf = ref [] and dead = ref false in
+  let count_and_data arg = match String.split_on_char ',' arg with
+    | [k; d] -> (int_of_string k, unhex d) | _ -> failwith "vmbody repeat op" in
   let outs = List.filter_map (fun op ->
     if op = "" then None else if !dead then Some "SKIP" else
-    let c = op.[0] and data = unhex (String.sub op 1 (String.length op - 1)) in
+    let c = op.[0] in
+    if c = 'R' then begin
+      (* R<n>,<hex>: encode_payload n times, output discarded (advances the counters) *)
+      let (k, data) = count_and_data (String.sub op 1 (String.length op - 1)) in
+      for _ = 1 to k do
+        let (_, b') = encode_payload_v prims (nat_of_int (List.length data + 1)) !enc data [] in enc := b'
+      done; Some "OK"
+    end else if c = 'L' || c = 'M' then begin
+      (* L<n>,<hex> / M<n>,<hex>: n times: the peer encodes (payload / packet), this role's decoder decodes it at once *)
+      let (k, data) = count_and_data (String.sub op 1 (String.length op - 1)) in
+      let last = ref "-" and ok = ref 0 and res = ref None in
+      (try for _ = 1 to k do
+        let wire = if c = 'L' then (let (out, b') = encode_payload_v prims (nat_of_int (List.length data + 1)) !peer data [] in peer := b'; Some out)
+                   else (match encode_packet_v prims !peer data [] with Ok (out, b') -> peer := b'; Some out | _ -> None) in
+        (match wire with
+         | None -> res := Some "ERR Aead"; raise Exit
+         | Some wire ->
+           (match (if c = 'L' then decode_payload_v prims else decode_packet_v prims) !dec wire with
+            | Ok ((b', r), it) -> dec := b';
+              if r <> [] then (res := Some "ERR Leftover"; raise Exit);
+              last := (match it with Some d -> hx d | None -> "none"); incr ok
+            | Err e -> res := Some ("ERR " ^ string_of_err e); raise Exit
+            | Panic -> res := Some "PANIC"; raise Exit))
+      done with Exit -> ());
+      (match !res with
+       | Some r -> dead := true; Some r
+       | None -> Some (Printf.sprintf "LOOP ok=%d last=%s" !ok !last))
+    end else
+    let data = unhex (String.sub op 1 (String.length op - 1)) in
     match c with
     | 'E' | 'e' -> let (out, b') = encode_payload_v prims (nat_of_int (List.length data + 1)) !enc data [] in
       enc := b'; Some (if c = 'E' then "OK " ^ hx out else "OK")
@@ -241,7 +273,7 @@ let run_vmbody opt sec role sess ops =
 
 let run_vmsrv now users ops =
   let now = n_of_int (int_of_string now) in
-  let keys = List.map cmdkey_of_uuid (String.split_on_char ',' users) in
+  let keys = List.map cmdkey_of_uuid (csv users) in
   let st = ref SInit and buf = ref [] and enc = ref None and dead = ref false in
   let outs = List.filter_map (fun op ->
     if op = "" then None else if !dead then Some "SKIP" else
@@ -263,8 +295,10 @@ let run_vmsrv now users ops =
        | _ -> dead := true; Some (Printf.sprintf "%s [%s]" (fstatus_str fs) its))) (String.split_on_char ';' ops) in
   String.concat " | " outs
 
-let run_vmcli uuid opt sec cmd addr sess ops =
-  let _ = uuid in
+let zeros k = List.init k (fun _ -> N0)
+let run_vmcli uuid opt sec cmd addr sess now ops =
+  let id = lazy (cmdkey_of_uuid uuid) and now = n_of_int (int_of_string now) in
+  let enc = ref None in
   let h = { rh_opt = n_of_int (int_of_string opt land 31); rh_sec = n_of_int (int_of_string sec);
             rh_cmd = (if cmd = "1" then CmdTcp else CmdUdp); rh_addr = parse_addr addr } in
   let s = vsess_of_hex sess in
@@ -273,7 +307,12 @@ let run_vmcli uuid opt sec cmd addr sess ops =
     if op = "" then None else if !dead then Some "SKIP" else
     let c = op.[0] and data = unhex (String.sub op 1 (String.length op - 1)) in
     match c with
-    | 'e' | 'w' -> Some "OK"     (* request bytes depend on the implementation's RNG: checked by decoding them (vmsrv) *)
+    | 'e' | 'w' ->
+      (* the request BYTES depend on the implementation's RNG (checked by decoding them: vmsrv, vmrt); the STATUS is the
+         model's: an address that cannot be written and a datagram above the limit are refused *)
+      (match client_vencode prims (Lazy.force id) h s !enc now (zeros 4) (zeros 8) [] data [] with
+       | Ok (b', _) -> enc := Some b'; Some "OK"
+       | Err e -> dead := true; Some ("ERR " ^ string_of_err e) | Panic -> dead := true; Some "PANIC")
     | _ ->
       let fdec d src = match client_vdecode prims h s d src with Ok ((d', r), it) -> Ok ((d', r), it) | Err e -> Err e | Panic -> Panic in
       let (((d', r), items), fs) = feed fdec !dec !buf data in
@@ -282,6 +321,34 @@ let run_vmcli uuid opt sec cmd addr sess ops =
        | Waiting -> dec := d'; buf := r; Some (Printf.sprintf "WAIT [%s] rest=%d" its (List.length r))
        | _ -> dead := true; Some (Printf.sprintf "%s [%s]" (fstatus_str fs) its))) (String.split_on_char ';' ops) in
   String.concat " | " outs
+
+(* vmrt: the whole exchange inside the model: the client encodes `up` for `addr`, a server that knows only this user decodes
+   it and answers `down`, the client decodes the answer.  All randomness of the model's encoders is zero. *)
+let run_vmrt uuid opt sec cmd addr sess now up down =
+  let id = cmdkey_of_uuid uuid and now = n_of_int (int_of_string now) in
+  let h = { rh_opt = n_of_int (int_of_string opt land 31); rh_sec = n_of_int (int_of_string sec);
+            rh_cmd = (if cmd = "1" then CmdTcp else CmdUdp); rh_addr = parse_addr addr } in
+  let s = vsess_of_hex sess in
+  match client_vencode prims id h s None now (zeros 4) (zeros 8) [] (unhex up) [] with
+  | Err e -> "ENC ERR " ^ string_of_err e | Panic -> "ENC PANIC"
+  | Ok (_, wire) ->
+    let fdec st src = match server_vdecode prims now [id] st src with Ok ((s', r), it) -> Ok ((s', r), it) | Err e -> Err e | Panic -> Panic in
+    let (((st, r), items), fs) = feed fdec SInit [] wire in
+    let l1 = (match fs with
+      | Waiting -> Printf.sprintf "WAIT [%s] rest=%d" (String.concat "," (List.map show_inbound items)) (List.length r)
+      | _ -> Printf.sprintf "%s [%s]" (fstatus_str fs) (String.concat "," (List.map show_inbound items))) in
+    (match (fs, st) with
+     | (Waiting, SReady (h', s', _)) ->
+       (match server_vencode prims h' s' None (unhex down) [] with
+        | Err e -> l1 ^ " | ENC ERR " ^ string_of_err e | Panic -> l1 ^ " | ENC PANIC"
+        | Ok (_, back) ->
+          let cdec d src = match client_vdecode prims h s d src with Ok ((d', r), it) -> Ok ((d', r), it) | Err e -> Err e | Panic -> Panic in
+          let (((_, r2), items2), fs2) = feed cdec None [] back in
+          let its = String.concat "," (List.map hx items2) in
+          l1 ^ " | " ^ (match fs2 with
+            | Waiting -> Printf.sprintf "WAIT [%s] rest=%d" its (List.length r2)
+            | _ -> Printf.sprintf "%s [%s]" (fstatus_str fs2) its))
+     | _ -> l1 ^ " | SKIP")
 
 (* C16 config component: ASCII text <-> byte lists *)
 let text_of (l : n list) : string = String.init (List.length l) (fun i -> Char.chr (int_of_n (List.nth l i) land 255))
@@ -509,7 +576,8 @@ let run_case (fields : string list) : string =
   | "adapt" :: dk :: p1 :: p2 :: script :: _ -> run_adapt_case dk p1 p2 script
   | "vmbody" :: opt :: sec :: role :: sess :: ops :: _ -> run_vmbody opt sec role sess ops
   | "vmsrv" :: now :: users :: ops :: _ -> run_vmsrv now users ops
-  | "vmcli" :: uuid :: opt :: sec :: cmd :: addr :: sess :: _now :: ops :: _ -> run_vmcli uuid opt sec cmd addr sess ops
+  | "vmcli" :: uuid :: opt :: sec :: cmd :: addr :: sess :: now :: ops :: _ -> run_vmcli uuid opt sec cmd addr sess now ops
+  | "vmrt" :: uuid :: opt :: sec :: cmd :: addr :: sess :: now :: up :: down :: _ -> run_vmrt uuid opt sec cmd addr sess now up down
   | "trojsrv" :: pw :: ops :: _ ->
     let key = trojan_key prims (unhex pw) in
     run_ops (fun st src -> match trojan_server_decode key st src with
